@@ -53,6 +53,13 @@ def run(ctx):
         if b.error:
             continue
         S.diff_batch(ctx, b, "Model/Lens derivation outcome + window vs real hseq/optics")
+        for req, res in b.caps:
+            sid = int(req.split()[1])
+            ctx.count(S.sexpr(b.by_sid[sid].type) + "|" + req)
+            ctx.hist("request", "short-names-spare-capacity")
+            if not res.startswith("panic"):
+                ctx.violations.append(vlib.Violation("impl", "too few names silently accepted: a 1-element names slice with spare capacity is re-sliced to attr[0:2], the hidden element is used as the second name",
+                                                     case=S.case_of(b, req, {"sid": sid}), expected="panic at derivation time", got=res, key={"class": "short-names-spare-capacity"}))
         truth, size = {}, 0
         for (req, meta), res in zip(b.requests, b.impl):
             sh = b.by_sid[meta["sid"]]
